@@ -37,6 +37,7 @@ type Case struct {
 	Wasm    string            `json:"wasm"`
 	Lib     string            `json:"lib,omitempty"` // hex of a second module "lib" instantiated first (cross-module cases)
 	CloseCM bool              `json:"close_cm"`      // the CompiledModule values are closed after instantiation, before the calls (documented as safe)
+	Decoy   []bool            `json:"decoy,omitempty"` // the same binary was compiled before, on the same runtime, with THIS listener set (kept open)
 }
 
 type rec struct {
@@ -124,7 +125,7 @@ func instantiate(ctx context.Context, rt wazero.Runtime, bin []byte, name string
 	return mod, err
 }
 
-func runOn(engine string, m *c.ModSpec, bin []byte, calls [][]uint64, mask []bool, all bool, lib []byte, closeCM bool) (eo EngObs) {
+func runOn(engine string, m *c.ModSpec, bin []byte, calls [][]uint64, mask []bool, all bool, lib []byte, closeCM bool, decoy []bool) (eo EngObs) {
 	defer func() {
 		if e := recover(); e != nil {
 			eo.Err = fmt.Sprint("PANIC: ", e)
@@ -151,6 +152,14 @@ func runOn(engine string, m *c.ModSpec, bin []byte, calls [][]uint64, mask []boo
 		if lib != nil {
 			if _, err := instantiate(ctx, rt, lib, "lib", closeCM); err != nil {
 				eo.Err = "instantiate lib: " + err.Error()
+				return
+			}
+		}
+		if pass == 0 && decoy != nil {
+			// an earlier compilation of the same bytes with another listener set must not be taken for this one
+			dr := &rec{m: m, mask: decoy}
+			if _, err := rt.CompileModule(experimental.WithFunctionListenerFactory(context.Background(), dr), bin); err != nil {
+				eo.Err = "decoy compile: " + err.Error()
 				return
 			}
 		}
@@ -235,6 +244,17 @@ func main() {
 			hres = append(hres, ws)
 		}
 		cases[i] = Case{ID: i, Store: m.CoqStore(), HRes: hres, Calls: calls, Mask: mask, All: all, Wasm: hex.EncodeToString(bin), Engines: map[string]EngObs{}, CloseCM: i%3 == 1}
+		if i%4 == 2 {
+			d := make([]bool, nf)
+			for j := range d {
+				d[j] = rng.Intn(2) == 0
+			}
+			// the decoy must differ from the mask on a DEFINED function: two compilations of one binary on one runtime
+			// with the same listener presence are one cache entry by design (see F59)
+			j := len(m.Hosts) + rng.Intn(len(m.Funcs))
+			d[j] = !mask[j]
+			cases[i].Decoy = d
+		}
 		mods[i], bins[i] = m, bin
 	}
 	// fixed deep case: a trap (and a normal return) unwinding through more than 30 listened frames
@@ -257,6 +277,42 @@ func main() {
 		cases = append(cases, Case{ID: len(cases), Store: m.CoqStore(), HRes: [][]int{{32}}, Calls: calls, Mask: []bool{true, true}, All: true,
 			Wasm: hex.EncodeToString(bin), Engines: map[string]EngObs{}, CloseCM: true})
 		mods, bins, libs = append(mods, m), append(bins, bin), append(libs, nil)
+	}
+	// fixed chain cases: 18 defined functions f1 -> f2 -> ... -> f18 (index 0 is a host import), listener sets that differ
+	// only in functions whose index is 8 or 16 apart, or are nested prefixes of each other, after a decoy compilation
+	{
+		m := &c.ModSpec{}
+		m.Hosts = []c.HostSpec{{H: 0, Sig: c.Sig{P: []byte{c.I32}, R: []byte{c.I32}}}}
+		for i := 1; i <= 18; i++ {
+			f := &c.FuncSpec{Sig: c.Sig{P: []byte{c.I32}, R: []byte{c.I32}}}
+			if i < 18 {
+				f.Body = []c.Ins{c.ILocalGet(0), c.ICall(i + 1), c.IConst(c.I32, 1), c.IBin(c.I32, 0)}
+			} else {
+				f.Body = []c.Ins{c.ILocalGet(0), c.ICall(0)}
+			}
+			m.Funcs = append(m.Funcs, f)
+		}
+		bin := m.Encode()
+		set := func(idx ...int) []bool {
+			b := make([]bool, 19)
+			for _, i := range idx {
+				b[i] = true
+			}
+			return b
+		}
+		upto := func(n int) []bool {
+			b := make([]bool, 19)
+			for i := 0; i <= n; i++ {
+				b[i] = true
+			}
+			return b
+		}
+		for _, pr := range [][2][]bool{{set(1, 9), set(1)}, {set(1), set(1, 9)}, {upto(18), upto(8)}, {upto(8), upto(18)}, {set(2, 10, 18), set(2, 10)},
+			{set(0, 1, 17), set(0, 1, 9, 17)}, {set(5, 13), set(13)}, {set(3, 4, 12), set(3, 4, 11)}} {
+			cases = append(cases, Case{ID: len(cases), Store: m.CoqStore(), HRes: [][]int{{32}}, Calls: [][]uint64{{1, 5}, {9, 7}}, Mask: pr[0], All: false,
+				Wasm: hex.EncodeToString(bin), Engines: map[string]EngObs{}, Decoy: pr[1]})
+			mods, bins, libs = append(mods, m), append(bins, bin), append(libs, nil)
+		}
 	}
 	// fixed cross-module cases: a listened function calls a listened function of ANOTHER module and then returns through
 	// each kind of return path (end, br, taken/untaken br_if to the function label, br_table, return)
@@ -310,7 +366,7 @@ func main() {
 			go func(i int, eng string) {
 				defer wg.Done()
 				defer func() { <-sem }()
-				eo := runOn(eng, mods[i], bins[i], cases[i].Calls, cases[i].Mask, cases[i].All, libs[i], cases[i].CloseCM)
+				eo := runOn(eng, mods[i], bins[i], cases[i].Calls, cases[i].Mask, cases[i].All, libs[i], cases[i].CloseCM, cases[i].Decoy)
 				mu.Lock()
 				cases[i].Engines[eng] = eo
 				mu.Unlock()
